@@ -20,52 +20,48 @@ theorem toList_ofList (l : List Rat) : (V.ofList l).toList = l := by
     simp [List.getD_eq_getElem?_getD, h1]
 
 theorem gen_sisHomMF (nN tau gamma S I : Rat) :
-    (dSIS_homogeneous_meanfield (V.ofList [S, I]) nN tau gamma).toList
-      = [(sisHomMF nN tau gamma S I).1, (sisHomMF nN tau gamma S I).2] := by
-  simp only [dSIS_homogeneous_meanfield, toList_ofList, sisHomMF]
-  simp [V.ofList]
+    let r := dSIS_homogeneous_meanfield (V.ofList [S, I]) nN tau gamma
+    let m := sisHomMF nN tau gamma S I
+    r.n = 2 ∧ r.f 0 = m.1 ∧ r.f 1 = m.2 := by
+  refine ⟨rfl, ?_, ?_⟩ <;> simp [dSIS_homogeneous_meanfield, sisHomMF, V.ofList] <;> ring
 
 theorem gen_sirHomMF (nN tau gamma S I : Rat) :
-    (dSIR_homogeneous_meanfield (V.ofList [S, I]) nN tau gamma).toList
-      = [(sirHomMF nN tau gamma S I).1, (sirHomMF nN tau gamma S I).2] := by
-  simp only [dSIR_homogeneous_meanfield, toList_ofList, sirHomMF]
-  simp [V.ofList]
+    let r := dSIR_homogeneous_meanfield (V.ofList [S, I]) nN tau gamma
+    let m := sirHomMF nN tau gamma S I
+    r.n = 2 ∧ r.f 0 = m.1 ∧ r.f 1 = m.2 := by
+  refine ⟨rfl, ?_, ?_⟩ <;> simp [dSIR_homogeneous_meanfield, sirHomMF, V.ofList] <;> ring
 
 theorem gen_sisHomPW (N n tau gamma S SI SS : Rat) :
-    (dSIS_homogeneous_pairwise (V.ofList [S, SI, SS]) N n tau gamma).toList
-      = [(sisHomPW N n tau gamma S SI SS).1, (sisHomPW N n tau gamma S SI SS).2.1, (sisHomPW N n tau gamma S SI SS).2.2] := by
-  simp only [dSIS_homogeneous_pairwise, toList_ofList, sisHomPW]
-  simp [V.ofList]
+    let r := dSIS_homogeneous_pairwise (V.ofList [S, SI, SS]) N n tau gamma
+    let m := sisHomPW N n tau gamma S SI SS
+    r.n = 3 ∧ r.f 0 = m.1 ∧ r.f 1 = m.2.1 ∧ r.f 2 = m.2.2 := by
+  refine ⟨rfl, ?_, ?_, ?_⟩ <;> simp [dSIS_homogeneous_pairwise, sisHomPW, V.ofList] <;> ring
 
 theorem gen_sirHomPW (n tau gamma S I SI SS : Rat) :
-    (dSIR_homogeneous_pairwise (V.ofList [S, I, SI, SS]) n tau gamma).toList
-      = [(sirHomPW n tau gamma S I SI SS).1, (sirHomPW n tau gamma S I SI SS).2.1,
-         (sirHomPW n tau gamma S I SI SS).2.2.1, (sirHomPW n tau gamma S I SI SS).2.2.2] := by
-  simp only [dSIR_homogeneous_pairwise, toList_ofList, sirHomPW]
-  simp [V.ofList]
+    let r := dSIR_homogeneous_pairwise (V.ofList [S, I, SI, SS]) n tau gamma
+    let m := sirHomPW n tau gamma S I SI SS
+    r.n = 4 ∧ r.f 0 = m.1 ∧ r.f 1 = m.2.1 ∧ r.f 2 = m.2.2.1 ∧ r.f 3 = m.2.2.2 := by
+  refine ⟨rfl, ?_, ?_, ?_, ?_⟩ <;> simp [dSIR_homogeneous_pairwise, sirHomPW, V.ofList] <;> ring
 
 theorem gen_sisSuperCompactPW (tau gamma N k1 k2 k3 I SS SI II : Rat) :
-    (dSIS_super_compact_pairwise (V.ofList [I, SS, SI, II]) tau gamma N k1 k2 k3).toList
-      = [(sisSuperCompactPW tau gamma N k1 k2 k3 I SS SI II).1, (sisSuperCompactPW tau gamma N k1 k2 k3 I SS SI II).2.1,
-         (sisSuperCompactPW tau gamma N k1 k2 k3 I SS SI II).2.2.1, (sisSuperCompactPW tau gamma N k1 k2 k3 I SS SI II).2.2.2] := by
-  simp only [dSIS_super_compact_pairwise, toList_ofList, sisSuperCompactPW]
-  simp [V.ofList]
-
+    let r := dSIS_super_compact_pairwise (V.ofList [I, SS, SI, II]) tau gamma N k1 k2 k3
+    let m := sisSuperCompactPW tau gamma N k1 k2 k3 I SS SI II
+    r.n = 4 ∧ r.f 0 = m.1 ∧ r.f 1 = m.2.1 ∧ r.f 2 = m.2.2.1 ∧ r.f 3 = m.2.2.2 := by
+  refine ⟨rfl, ?_, ?_, ?_, ?_⟩ <;> simp [dSIS_super_compact_pairwise, sisSuperCompactPW, V.ofList] <;> ring
 
 theorem gen_sirSuperCompactPW (K : Nat) (c : Nat → Rat) (tau gamma N theta SS SI R : Rat) :
-    (dSIR_super_compact_pairwise (V.ofList [theta, SS, SI, R]) tau gamma (psiH K c) (psiHP K c) (psiHDP K c) N).toList
-      = [(sirSuperCompactPW K c tau gamma N theta SS SI R).1, (sirSuperCompactPW K c tau gamma N theta SS SI R).2.1,
-         (sirSuperCompactPW K c tau gamma N theta SS SI R).2.2.1, (sirSuperCompactPW K c tau gamma N theta SS SI R).2.2.2] := by
-  simp only [dSIR_super_compact_pairwise, toList_ofList, sirSuperCompactPW]
-  simp [V.ofList]
+    let r := dSIR_super_compact_pairwise (V.ofList [theta, SS, SI, R]) tau gamma (psiH K c) (psiHP K c) (psiHDP K c) N
+    let m := sirSuperCompactPW K c tau gamma N theta SS SI R
+    r.n = 4 ∧ r.f 0 = m.1 ∧ r.f 1 = m.2.1 ∧ r.f 2 = m.2.2.1 ∧ r.f 3 = m.2.2.2 := by
+  refine ⟨rfl, ?_, ?_, ?_, ?_⟩ <;> simp [dSIR_super_compact_pairwise, sirSuperCompactPW, V.ofList] <;> ring
 
 /-- `_dEBCM_` guards the normalising constant ψ̂'(1) against 0 (no node with a neighbour); away from that case it is
 the model's right-hand side. -/
 theorem gen_ebcm (K : Nat) (c : Nat → Rat) (N tau gamma phiS0 phiR0 theta R : Rat) (h : psiHP K c 1 ≠ 0) :
-    (dEBCM (V.ofList [theta, R]) N tau gamma (psiH K c) (psiHP K c) phiS0 phiR0).toList
-      = [(ebcm K c N tau gamma phiS0 phiR0 theta R).1, (ebcm K c N tau gamma phiS0 phiR0 theta R).2] := by
-  simp only [dEBCM, toList_ofList, ebcm]
-  simp [V.ofList, h]
+    let r := dEBCM (V.ofList [theta, R]) N tau gamma (psiH K c) (psiHP K c) phiS0 phiR0
+    let m := ebcm K c N tau gamma phiS0 phiR0 theta R
+    r.n = 2 ∧ r.f 0 = m.1 ∧ r.f 1 = m.2 := by
+  refine ⟨rfl, ?_, ?_⟩ <;> simp [dEBCM, ebcm, V.ofList, h] <;> ring
 
 /-- in the guarded case the transmission term is computed with denominator 1 -/
 theorem gen_ebcm_guard (K : Nat) (c : Nat → Rat) (N tau gamma phiS0 phiR0 theta R : Rat) (h : psiHP K c 1 = 0) :
@@ -103,5 +99,132 @@ theorem gen_sisHetMF (K : Nat) (tau gamma : Rat) (S I : Nat → Rat) :
     dsimp only
     rw [hI, hS k hk]
     simp only [sisHetMF, piI, kf]
+
+
+theorem gen_sirHetMF (K : Nat) (tau gamma : Rat) (S0 Nk : Nat → Rat) (theta : Rat) (R : Nat → Rat) :
+    let r := dSIR_heterogeneous_meanfield (V.append (V.ofList [theta]) ⟨K, R⟩) ⟨K, S0⟩ ⟨K, Nk⟩ tau gamma
+    r.n = 1 + K ∧ r.f 0 = (sirHetMF K tau gamma S0 Nk theta R).1
+      ∧ ∀ k, k < K → r.f (1 + k) = (sirHetMF K tau gamma S0 Nk theta R).2 k := by
+  intro r
+  have h0 : (V.append (V.ofList [theta]) ⟨K, R⟩).f 0 = theta := by simp [V.append, V.ofList]
+  have hR : ∀ j, (V.append (V.ofList [theta]) ⟨K, R⟩).f (1 + j) = R j :=
+    fun j => append_f_ge' (V.ofList [theta]) ⟨K, R⟩ 1 j rfl
+  have hn : (V.append (V.ofList [theta]) ⟨K, R⟩).n - 1 = K := by simp
+  refine ⟨by simp [r, dSIR_heterogeneous_meanfield], ?_, ?_⟩
+  · simp only [r, dSIR_heterogeneous_meanfield, V.arange_n, hn]
+    rw [V.append_f_lt _ _ 0 (by simp)]
+    simp only [h0, hR, sirHetMF, kf]
+    rfl
+  · intro k hk
+    simp only [r, dSIR_heterogeneous_meanfield, V.arange_n, hn]
+    rw [append_f_ge' _ _ 1 k rfl]
+    simp only [h0, hR, sirHetMF]
+
+
+theorem ofList_f0 (a : Rat) (l : List Rat) : (V.ofList (a :: l)).f 0 = a := rfl
+theorem ofList_f1 (a b : Rat) (l : List Rat) : (V.ofList (a :: b :: l)).f 1 = b := rfl
+theorem ofList_f2 (a b c : Rat) (l : List Rat) : (V.ofList (a :: b :: c :: l)).f 2 = c := rfl
+
+theorem gen_sisCompactPW (K : Nat) (tau gamma twoM : Rat) (Nk S : Nat → Rat) (SI SS : Rat) :
+    let r := dSIS_compact_pairwise (V.append ⟨K, S⟩ (V.ofList [SI, SS])) ⟨K, Nk⟩ twoM tau gamma
+    let m := sisCompactPW K tau gamma twoM Nk S SI SS
+    r.n = K + 2 ∧ (∀ k, k < K → r.f k = m.1 k) ∧ r.f (K + 0) = m.2.1 ∧ r.f (K + 1) = m.2.2 := by
+  intro r m
+  have hn : (V.append ⟨K, S⟩ (V.ofList [SI, SS])).n - 2 = K := by simp
+  have hS : ∀ j, j < K → (V.append ⟨K, S⟩ (V.ofList [SI, SS])).f j = S j := fun j hj => V.append_f_lt _ _ j hj
+  have hSI : (V.append ⟨K, S⟩ (V.ofList [SI, SS])).f (K + 0) = SI := V.append_f_ge ⟨K, S⟩ _ 0
+  have hSS : (V.append ⟨K, S⟩ (V.ofList [SI, SS])).f (K + 1) = SS := V.append_f_ge ⟨K, S⟩ _ 1
+  have e1 : sumTo K (fun j => (j : Rat) * (V.append ⟨K, S⟩ (V.ofList [SI, SS])).f j) = sumTo K (fun k => kf k * S k) :=
+    sumTo_congr _ _ _ (fun j hj => by rw [hS j hj]; rfl)
+  have e2 : sumTo K (fun j => (j : Rat) * ((j : Rat) - 1) * (V.append ⟨K, S⟩ (V.ofList [SI, SS])).f j)
+      = sumTo K (fun k => kf k * (kf k - 1) * S k) :=
+    sumTo_congr _ _ _ (fun j hj => by rw [hS j hj]; rfl)
+  refine ⟨by simp [r, dSIS_compact_pairwise], ?_, ?_, ?_⟩
+  · intro k hk
+    simp only [r, dSIS_compact_pairwise, V.arange_n, hn]
+    rw [V.append_f_lt _ _ k hk, e1]
+    dsimp only
+    rw [hS k hk, hSI]
+    simp only [m, sisCompactPW, kf]
+  · simp only [r, dSIS_compact_pairwise, V.arange_n, hn]
+    rw [append_f_ge' _ _ K 0 rfl, e1, e2, hSI, hSS]
+    simp only [m, sisCompactPW, ofList_f0]
+  · simp only [r, dSIS_compact_pairwise, V.arange_n, hn]
+    rw [append_f_ge' _ _ K 1 rfl, e1, e2, hSI, hSS]
+    simp only [m, sisCompactPW, ofList_f1]
+
+theorem gen_sirCompactPW (K : Nat) (tau gamma N : Rat) (S : Nat → Rat) (SS SI R : Rat) :
+    let r := dSIR_compact_pairwise (V.append ⟨K, S⟩ (V.ofList [SS, SI, R])) N tau gamma
+    let m := sirCompactPW K tau gamma N S SS SI R
+    r.n = K + 3 ∧ (∀ k, k < K → r.f k = m.1 k) ∧ r.f (K + 0) = m.2.1 ∧ r.f (K + 1) = m.2.2.1 ∧ r.f (K + 2) = m.2.2.2 := by
+  intro r m
+  have hn : (V.append ⟨K, S⟩ (V.ofList [SS, SI, R])).n - 3 = K := by simp
+  have hS : ∀ j, j < K → (V.append ⟨K, S⟩ (V.ofList [SS, SI, R])).f j = S j := fun j hj => V.append_f_lt _ _ j hj
+  have hSS : (V.append ⟨K, S⟩ (V.ofList [SS, SI, R])).f (K + 0) = SS := V.append_f_ge ⟨K, S⟩ _ 0
+  have hSI : (V.append ⟨K, S⟩ (V.ofList [SS, SI, R])).f (K + 1) = SI := V.append_f_ge ⟨K, S⟩ _ 1
+  have hR : (V.append ⟨K, S⟩ (V.ofList [SS, SI, R])).f (K + 2) = R := V.append_f_ge ⟨K, S⟩ _ 2
+  have e1 : sumTo K (fun j => (j : Rat) * (V.append ⟨K, S⟩ (V.ofList [SS, SI, R])).f j) = sumTo K (fun k => kf k * S k) :=
+    sumTo_congr _ _ _ (fun j hj => by rw [hS j hj]; rfl)
+  have e2 : sumTo K (fun j => (j : Rat) * ((j : Rat) - 1) * (V.append ⟨K, S⟩ (V.ofList [SS, SI, R])).f j)
+      = sumTo K (fun k => kf k * (kf k - 1) * S k) :=
+    sumTo_congr _ _ _ (fun j hj => by rw [hS j hj]; rfl)
+  have e3 : sumTo K (fun j => (V.append ⟨K, S⟩ (V.ofList [SS, SI, R])).f j) = sumTo K S :=
+    sumTo_congr _ _ _ (fun j hj => hS j hj)
+  refine ⟨by simp [r, dSIR_compact_pairwise], ?_, ?_, ?_, ?_⟩
+  · intro k hk
+    simp only [r, dSIR_compact_pairwise, V.arange_n, hn]
+    rw [V.append_f_lt _ _ k hk, e1]
+    dsimp only
+    rw [hS k hk, hSI]
+    simp only [m, sirCompactPW, kf] <;> ring
+  · simp only [r, dSIR_compact_pairwise, V.arange_n, hn]
+    rw [append_f_ge' _ _ K 0 rfl, e1, e2, hSI, hSS]
+    simp only [m, sirCompactPW, ofList_f0]
+  · simp only [r, dSIR_compact_pairwise, V.arange_n, hn]
+    rw [append_f_ge' _ _ K 1 rfl, e1, e2, hSI, hSS]
+    simp only [m, sirCompactPW, ofList_f1]
+  · simp only [r, dSIR_compact_pairwise, V.arange_n, hn]
+    rw [append_f_ge' _ _ K 2 rfl, e3, hR]
+    simp only [m, sirCompactPW, ofList_f2]
+
+
+theorem guard_div (a b : Rat) : (if b = 0 then (0 : Rat) else a / b) = a / b := by
+  split
+  · next h => simp [h]
+  · rfl
+
+/-- the `SX == 0` guard of `_dSIR_compact_effective_degree_` agrees with Lean's `x / 0 = 0` -/
+theorem gen_sirCompactED (K : Nat) (tau gamma N : Rat) (Sk : Nat → Rat) (R SI : Rat) :
+    let r := dSIR_compact_effective_degree (V.append ⟨K, Sk⟩ (V.ofList [R, SI])) N tau gamma
+    let m := sirCompactED K tau gamma N Sk R SI
+    r.n = K + 2 ∧ (∀ k, k < K → r.f k = m.1 k) ∧ r.f (K + 0) = m.2.1 ∧ r.f (K + 1) = m.2.2 := by
+  intro r m
+  have hn : (V.append ⟨K, Sk⟩ (V.ofList [R, SI])).n - 2 = K := by simp
+  have hS : ∀ j, j < K → (V.append ⟨K, Sk⟩ (V.ofList [R, SI])).f j = Sk j := fun j hj => V.append_f_lt _ _ j hj
+  have hR : (V.append ⟨K, Sk⟩ (V.ofList [R, SI])).f (K + 0) = R := V.append_f_ge ⟨K, Sk⟩ _ 0
+  have hSI : (V.append ⟨K, Sk⟩ (V.ofList [R, SI])).f (K + 1) = SI := V.append_f_ge ⟨K, Sk⟩ _ 1
+  have e1 : sumTo K (fun j => (V.append ⟨K, Sk⟩ (V.ofList [R, SI])).f j * (j : Rat)) = sumTo K (fun k => Sk k * kf k) :=
+    sumTo_congr _ _ _ (fun j hj => by rw [hS j hj]; rfl)
+  have e2 : sumTo K (fun j => (j : Rat) * ((j : Rat) - 1) * (V.append ⟨K, Sk⟩ (V.ofList [R, SI])).f j)
+      = sumTo K (fun k => kf k * (kf k - 1) * Sk k) :=
+    sumTo_congr _ _ _ (fun j hj => by rw [hS j hj]; rfl)
+  have e3 : sumTo K (fun j => (V.append ⟨K, Sk⟩ (V.ofList [R, SI])).f j) = sumTo K Sk :=
+    sumTo_congr _ _ _ (fun j hj => hS j hj)
+  refine ⟨by simp [r, dSIR_compact_effective_degree], ?_, ?_, ?_⟩
+  · intro k hk
+    simp only [r, dSIR_compact_effective_degree, V.arange_n, hn]
+    rw [V.append_f_lt _ _ k hk, e1, guard_div]
+    dsimp only
+    rw [hS k hk, hSI]
+    simp only [m, sirCompactED, kf]
+    by_cases h : k + 1 < K
+    · simp only [h, if_true, hS (k + 1) h]
+    · simp only [h, if_false]
+  · simp only [r, dSIR_compact_effective_degree, V.arange_n, hn]
+    rw [append_f_ge' _ _ K 0 rfl, e3, hR]
+    simp only [m, sirCompactED, ofList_f0]
+  · simp only [r, dSIR_compact_effective_degree, V.arange_n, hn]
+    rw [append_f_ge' _ _ K 1 rfl, e1, e2, guard_div, hSI]
+    simp only [m, sirCompactED, ofList_f1]
 
 end GenEq
